@@ -483,34 +483,14 @@ impl Sh {
     }
     /// maximal runs of domain-consecutive members (or of non-members when `excluded`)
     fn ranges<E: Elem>(&self, k: usize, excluded: bool) -> Vec<(u32, u32)> {
-        let me = if excluded { Sh { s: self.s.clone(), inv: !self.inv } } else { self.clone() };
-        let mut out = vec![];
-        let mut c = me.first_ge::<E>(0);
-        while let Some(start) = c {
-            if out.len() >= k {
-                break;
-            }
-            // end of the run: the domain value before the first non-member after start
-            let end = if me.inv {
-                match me.s.range(start..).next() {
-                    Some(x) => E::pred(*x).unwrap(),
-                    None => E::dmax(),
-                }
-            } else {
-                let mut e = start;
-                while let Some(n) = E::succ(e) {
-                    if me.s.contains(&n) {
-                        e = n;
-                    } else {
-                        break;
-                    }
-                }
-                e
-            };
-            out.push((start, end));
-            c = me.after::<E>(end);
+        if excluded {
+            // flip the flag without copying the exception set
+            let mut me = Sh { s: BTreeSet::new(), inv: !self.inv };
+            // SAFETY-free trick: temporarily move the set out is not possible through &self; use a view
+            return ranges_view::<E>(&self.s, me.inv, k, &mut me);
         }
-        out
+        let mut dummy = Sh::default();
+        ranges_view::<E>(&self.s, self.inv, k, &mut dummy)
     }
     /// f(a, b) membership-wise; outside both exception sets the memberships are the flags
     fn combine(a: &Sh, b: &Sh, f: impl Fn(bool, bool) -> bool) -> Sh {
@@ -550,6 +530,49 @@ impl Sh {
             }
         }
     }
+}
+
+fn first_ge_view<E: Elem>(s: &BTreeSet<u32>, inv: bool, lo: u32) -> Option<u32> {
+    if !inv {
+        return s.range(lo..).next().copied();
+    }
+    let mut c = if E::has(lo) { Some(lo) } else { E::succ(lo) };
+    while let Some(x) = c {
+        if !s.contains(&x) {
+            return Some(x);
+        }
+        c = E::succ(x);
+    }
+    None
+}
+fn ranges_view<E: Elem>(s: &BTreeSet<u32>, inv: bool, k: usize, _scratch: &mut Sh) -> Vec<(u32, u32)> {
+    let mut out = vec![];
+    let mut c = first_ge_view::<E>(s, inv, 0);
+    while let Some(start) = c {
+        if out.len() >= k {
+            break;
+        }
+        // end of the run: the domain value before the first non-member after start
+        let end = if inv {
+            match s.range(start..).next() {
+                Some(x) => E::pred(*x).unwrap(),
+                None => E::dmax(),
+            }
+        } else {
+            let mut e = start;
+            while let Some(n) = E::succ(e) {
+                if s.contains(&n) {
+                    e = n;
+                } else {
+                    break;
+                }
+            }
+            e
+        };
+        out.push((start, end));
+        c = if end == u32::MAX { None } else { first_ge_view::<E>(s, inv, end + 1) };
+    }
+    out
 }
 
 fn dom_range<E: Elem>(a: u32, b: u32) -> Vec<u32> {
@@ -1006,10 +1029,13 @@ fn run_sequence<E: Elem>(cx: &mut Ctx, rng: &mut Rng, ops: &[Op], pool: &[u32], 
             let stc = st.clone();
             let shc = sh.clone();
             let mut r2 = rng.clone();
+            let do_extra = last || rng.chance(1, 4);
+            if do_extra {
             match catch(std::panic::AssertUnwindSafe(move || extra_oracles::<E>(&stc, &shc, &mut r2, full_iter))) {
                 Ok(None) => {}
                 Ok(Some(why)) => cx.st.oracle_failure(json!({"key": key_of(E::NAME, &ops[..=i]), "what": why})),
                 Err(e) => cx.st.oracle_failure(json!({"key": key_of(E::NAME, &ops[..=i]), "what": "extra oracle panicked", "panic": e})),
+            }
             }
             rng.next_u64();
         }
@@ -1046,7 +1072,6 @@ fn universe(full: bool) -> Vec<Op> {
             }
         }
         pairs.push((65535, 65535));
-        pairs.push((1024, 65535));
         pairs.push((u32::MAX - 1, u32::MAX));
         pairs.push((u32::MAX, u32::MAX));
         pairs.push((513, 511)); // reversed: no-op
@@ -1126,7 +1151,14 @@ fn rand_op<E: Elem>(rng: &mut Rng, pool: &[u32], max_span: u32) -> Op {
             let span = match rng.below(10) {
                 0..=3 => rng.below(4) as u32,
                 4..=7 => rng.below(1100) as u32,
-                _ => rng.below(max_span as u64 + 1) as u32,
+                8 => rng.below(5000.min(max_span as u64) + 1) as u32,
+                _ => {
+                    if rng.chance(1, 6) {
+                        rng.below(max_span as u64 + 1) as u32
+                    } else {
+                        rng.below(600) as u32
+                    }
+                }
             };
             let mut b = a.saturating_add(span).min(E::dmax());
             if !E::has(b) {
@@ -1323,7 +1355,7 @@ fn main() {
         // depth 3 over the reduced universe is ~1e6 sequences: quick tier samples it
         let uni = universe(false);
         let pool: Vec<u32> = B11.to_vec();
-        for i in 0..60_000 {
+        for i in 0..30_000 {
             let ops: Vec<Op> = (0..3).map(|_| rng.pick(&uni).clone()).collect();
             run_sequence::<u32>(&mut cx, &mut rng, &ops, &pool, false, i % 40 == 0, false);
             cx.st.count("sampled.depth3");
@@ -1332,7 +1364,7 @@ fn main() {
     {
         let uni = universe(false);
         let pool: Vec<u32> = B11.to_vec();
-        let n = if thorough { 300_000 } else { 30_000 };
+        let n = if thorough { 300_000 } else { 12_000 };
         for i in 0..n {
             let len = 4 + rng.below(3) as usize;
             let ops: Vec<Op> = (0..len).map(|_| rng.pick(&uni).clone()).collect();
@@ -1345,18 +1377,18 @@ fn main() {
     // 2. random longer sequences
     let m = if thorough { 8 } else { 1 };
     let pool32: Vec<u32> = vec![0, 1, 63, 64, 511, 512, 513, 1023, 1024, 1535, 1536, 65535, 65536, 70000, 1 << 20, (1 << 31) - 1, 1 << 31, u32::MAX - 512, u32::MAX - 511, u32::MAX - 1, u32::MAX];
-    random_stream::<u32>(&mut cx, &mut rng, 700 * m, 40, 70 * m, &pool32, 70_000, false);
+    random_stream::<u32>(&mut cx, &mut rng, if thorough { 5600 } else { 400 }, 40, 70 * m, &pool32, 40_000, false);
     lap("u32 random done");
     let pool16: Vec<u32> = vec![0, 1, 63, 64, 511, 512, 513, 1023, 1024, 32767, 32768, 65023, 65024, 65534, 65535];
-    random_stream::<u16>(&mut cx, &mut rng, 500 * m, 40, 50 * m, &pool16, 3000, false);
+    random_stream::<u16>(&mut cx, &mut rng, 300 * m, 40, 50 * m, &pool16, 3000, false);
     let pool8: Vec<u32> = vec![0, 1, 63, 64, 65, 127, 128, 254, 255];
-    random_stream::<u8>(&mut cx, &mut rng, 500 * m, 30, 50 * m, &pool8, 255, true);
+    random_stream::<u8>(&mut cx, &mut rng, 300 * m, 30, 50 * m, &pool8, 255, true);
     let pools: Vec<u32> = vec![0, 1, 63, 64, 511, 512, 513, 1023, 1024, 1535, 1536, 2046, 2047];
-    random_stream::<Small>(&mut cx, &mut rng, 600 * m, 40, 60 * m, &pools, 2047, true);
+    random_stream::<Small>(&mut cx, &mut rng, 300 * m, 40, 60 * m, &pools, 2047, true);
     let poole: Vec<u32> = vec![0, 2, 62, 64, 510, 512, 514, 1022, 1024, 1026, 2044, 2046];
-    random_stream::<Even>(&mut cx, &mut rng, 600 * m, 40, 0, &poole, 2046, true);
+    random_stream::<Even>(&mut cx, &mut rng, 300 * m, 40, 0, &poole, 2046, true);
     let poolt: Vec<u32> = vec![5, 6, 511, 512, 513, 599, 600, 1000, 1001, 1023, 1024, 1535, 1536, 1599, 1600];
-    random_stream::<TwoIv>(&mut cx, &mut rng, 600 * m, 40, 0, &poolt, 1600, true);
+    random_stream::<TwoIv>(&mut cx, &mut rng, 300 * m, 40, 0, &poolt, 1600, true);
 
     lap("random streams done");
     // 3. RangeSet
